@@ -201,6 +201,18 @@ class Run:
                 break
         if ambiguous:
             self.count("ambiguous_lookups")
+        if ok:
+            # what a lookup resolved to is what the other process hands back for the response event: the attribution survives the transfer
+            try:
+                rt = type(cd).deserialize(cd.serialize(), w.sm)
+                same = (rt.cap_name == cd.cap_name and rt.type == cd.type and rt.base_url == cd.base_url
+                        and (rt.region() if rt.region else None) is (cd.region() if cd.region else None)
+                        and (rt.session() if rt.session else None) is (cd.session() if cd.session else None))
+                if not same:
+                    out.append(("resolve:attribution-lost-in-transfer", "%s resolved to %s/%s, after serialize + deserialize it is %s/%s" % (
+                        url, cd.cap_name, getattr(cd.type, "name", cd.type), rt.cap_name, getattr(rt.type, "name", rt.type))))
+            except Exception as e:
+                out.append(("resolve:transfer-raises:%s" % type(e).__name__, "serialize + deserialize of the resolved attribution raised %r" % (e,)))
         if not ok:
             key, e = cands[0]
             out.append(("resolve:%s" % ("ambiguous-invalid" if ambiguous else "misattributed"),
